@@ -370,7 +370,7 @@ func init() {
 			r.Assumptions = []string{"replays are exact copies of recorded wire messages (modified copies are C02's job)", "per-side send budget S, deviation budget D"}
 			ids := []string{"v3/f0/S2/D1/R0/P0", "v2/f0/S2/D1/R0/P0", "v3/f0/S1/D1/R1/P0", "v3/f150/S1/D1/R0/P0", "v3/f0/S1/D0/R0/P1", "v3/f0/S1/D0/R2/P0"}
 			if r.Tier == "thorough" {
-				ids = []string{"v3/f0/S1/D2/R1/P1", "v2/f0/S1/D1/R0/P1", "v2/f120/S1/D2/R0/P0", "v3/f150/S2/D1/R0/P0", "v2/f0/S2/D1/R1/P0", "v3/f0/S2/D2/R0/P0", "v2/f0/S2/D2/R0/P0", "v3/f0/S2/D2/R1/P0", "v3/f0/S3/D1/R0/P0", "v2/f0/S1/D0/R2/P0", "v3/f0/S1/D1/R2/P0"}
+				ids = []string{"v2/f0/S1/D1/R0/P1", "v3/f150/S2/D1/R0/P0", "v2/f0/S2/D1/R1/P0", "v2/f0/S1/D0/R2/P0", "v3/f0/S1/D1/R2/P0", "v3/f0/S1/D1/R1/P1", "v2/f120/S1/D2/R0/P0", "v3/f0/S3/D1/R0/P0", "v3/f0/S2/D2/R0/P0"} // sized to complete within the budget (deviation bound 2 together with re-keying and SMP needs > 1.4 M states for one configuration)
 			}
 			for _, id := range ids {
 				r.explore(verifC05Sys(id, r.Seed))
